@@ -76,6 +76,16 @@ def prove_targets(db, targets, lemmas=(), timeout_ms=20000, verbose=False):
                               "trace": traceback.format_exc()[-1500:]})
     t_gen = time.time() - t0
     res = solve.solve_all(obs, heaps, timeout_ms=timeout_ms)
+    # second pass for obligations left undecided (solver timeouts, typically under machine load): fewer workers, six times
+    # the budget.  Verdicts must not flip because all cores are busy.
+    retry = [i for i, x in enumerate(res) if x["result"] in ("unknown", "error") and not x["expect_sat"]]
+    if retry and len(retry) <= 24:
+        res2 = solve.solve_all([obs[i] for i in retry], heaps, timeout_ms=timeout_ms * 6, procs=4)
+        for i, x in zip(retry, res2):
+            if x["result"] in ("unsat", "sat"):
+                x["detail"] = (x.get("detail") or "") + " (decided in the second pass)"
+                x["ms"] += res[i]["ms"]
+                res[i] = x
     # partial obligations (function undecided as a whole): keep only the ones that did NOT discharge
     res = [x for x, ob in zip(res, obs) if not (getattr(ob, "partial", False) and x["result"] == "unsat")]
     return {"functions": funcs, "results": res, "undecided_functions": undecided, "gen_s": round(t_gen, 2),
